@@ -218,3 +218,442 @@ def replay(path):
         print("replay has no case line:", r); return
     print("impl :", vlib.run_harness(["conn"], line + "\n")[1].strip()[:6000])
     print("model:", vlib.run_model(["conn"], line + "\n")[1].strip()[:6000])
+
+
+# ------------------------------------------------------------------------------------------ helpers for expected replies
+def tree_encode(t):
+    """RESP bytes of a handler result message (tree text), as the fixed serializer writes it (CR/LF in line types -> space)"""
+    def san(b):
+        return bytes(0x20 if x in (13, 10) else x for x in b)
+    def enc(s, i):
+        c = s[i]
+        if c == "n":
+            return b"$-1\r\n", i + 1
+        if c in "seib":
+            j = s.index(")", i)
+            p = L.unhx(s[i + 2:j])
+            if c == "b":
+                return b"$%d\r\n" % len(p) + p + b"\r\n", j + 1
+            return {"s": b"+", "e": b"-", "i": b":"}[c] + san(p) + b"\r\n", j + 1
+        if c == "a":
+            items, k = [], i + 2
+            while s[k] != "]":
+                e, k = enc(s, k)
+                items.append(e)
+                if s[k] == ",":
+                    k += 1
+            return b"*%d\r\n" % len(items) + b"".join(items), k + 1
+        raise ValueError(s)
+    return enc(t, 0)[0]
+
+def expected_reply(hres):
+    """reply bytes the client must receive when the handler returned hres (pass-through, C05 (4))"""
+    k = hres[0]
+    if k == "n":
+        return b"-internal system error\r\n"
+    if k == "q":
+        return b"+OK\r\n"
+    if k == "e":
+        return b"-" + bytes(0x20 if x in (13, 10) else x for x in L.unhx(hres[1:])) + b"\r\n"
+    if k == "m":
+        return tree_encode(hres[1:])
+    i = hres.rindex("|")
+    return b"-" + bytes(0x20 if x in (13, 10) else x for x in L.unhx(hres[i + 1:])) + b"\r\n"
+
+def glob_src(p):
+    meta = b"\\.+*?()|[]{}^$"
+    out = b"(?s)^"
+    for c in p:
+        if c == ord("*"): out += b".*"
+        elif c == ord("?"): out += b"."
+        elif c in meta: out += b"\\" + bytes([c])
+        else: out += bytes([c])
+    return out + b"$"
+
+# ------------------------------------------------------------------------------------------ C04
+INJ = [b"\r\n+OK\r\n", b"\r\n:1\r\n", b"\r\n$-1\r\n", b"x\ry", b"\n", b"a\r\n-ERR z"]
+
+def c04_value(rng, depth=2):
+    """a well-formed RESP value of any type sent by the client"""
+    r = rng.random()
+    inj = lambda: rng.choice(INJ + [b"GET", b"k", b"", b"PING"])
+    if r < 0.12: return b"+" + rng.choice([b"PING", b"OK", b""]) + b"\r\n"
+    if r < 0.2: return b":" + rng.choice([b"1", b"-5"]) + b"\r\n"
+    if r < 0.26: return b"-" + rng.choice([b"ERR x", b""]) + b"\r\n"
+    if r < 0.34:
+        p = inj(); return b"$%d\r\n" % len(p) + p + b"\r\n"
+    if r < 0.38: return b"$-1\r\n"
+    if r < 0.42: return rng.choice([b"*0\r\n", b"*-1\r\n", b"*1\r\n$-1\r\n", b"*1\r\n*0\r\n", b"*2\r\n*1\r\n$4\r\nPING\r\n$1\r\nx\r\n", b"*1\r\n:5\r\n", b"*1\r\n+PING\r\n", b"*2\r\n+GET\r\n+k\r\n", b"*1\r\n-ERR\r\n"])
+    # a command whose name / arguments carry forged frames
+    name, args = any_request(rng)
+    nameb = name.encode("latin1") if isinstance(name, str) else name
+    if rng.random() < 0.3: nameb = nameb + inj()
+    args = [a + inj() if rng.random() < 0.25 else a for a in args]
+    return G.request_bytes(nameb, args)
+
+def run_c04(tier, seed):
+    chk = Check("C04", tier, seed)
+    broken = prep(chk, "C04")
+    rng = random.Random(seed)
+    cases = []
+    n = 1800 if tier == "quick" else 25000
+    # systematic: every handler-result shape x a few commands that pass results through or post-process them
+    for h in HRES_POOL:
+        for req in [("GET", [b"k"]), ("SET", [b"k", b"v"]), ("STRLEN", [b"k"]), ("HKEYS", [b"k"]), ("ZREVRANGE", [b"k", b"0", b"-1", b"WITHSCORES"]),
+                    ("MGET", [b"k", b"j"]), ("INCR", [b"k"]), ("APPEND", [b"k", b"v"]), ("GETRANGE", [b"k", b"0", b"-1"]), ("SCARD", [b"k"]), ("HLEN", [b"k"]),
+                    ("ZREVRANGEBYSCORE", [b"k", b"+inf", b"-inf", b"LIMIT", b"0", b"1"]), ("MSETNX", [b"k", b"v"]), ("HVALS", [b"k"]), ("SISMEMBER", [b"k", b"a"])]:
+            if req[0] in MAPCMDS and h[0] not in "mn":
+                continue
+            cases.append(dict(vals=[G.request_bytes(*req)], default=h, desc="%s with handler result %s" % (req_desc(*req), h[:40])))
+    for inj in INJ:
+        for req in [(b"NOSUCH" + inj, []), (b"GET", [b"k" + inj]), (b"SET", [b"k", b"v", b"EX" + inj]), (b"ECHO", [inj]), (b"PING", [inj]), (b"CONFIG", [b"GET", inj]),
+                    (b"CONFIG", [b"BAD" + inj]), (b"SELECT", [b"1" + inj]), (b"AUTH", [inj, inj]), (b"ZADD", [b"k", b"1" + inj, b"m"])]:
+            cases.append(dict(vals=[G.request_bytes(*req)], default="ms(4f4b)", desc="%r %r" % req))
+    for _ in range(n):
+        vals = [c04_value(rng) for _ in range(rng.randint(1, 5))]
+        cases.append(dict(vals=vals, default=rng.choice(HRES_POOL[:-1]), desc=None))
+    for c in cases:
+        data = b"".join(c["vals"])
+        noerr = any(m.encode() in data.upper() for m in MAPCMDS)
+        dflt = c["default"] if not (noerr and c["default"][0] not in "mn") else "ms(4f4b)"
+        c["line"] = L.mkcase([(0, "f" + L.hx(data)), (0, "e")], tbl=rand_table(rng, noerr=noerr) if c["desc"] is None else None, default=dflt)
+        c["desc"] = c["desc"] or repr(data[:200])
+    good = run_cases(chk, cases)
+    validated, distinct, kinds = 0, set(), {}
+    for c in good:
+        if not basic_monitors(chk, "C04", c):
+            continue
+        res, evs = c["iobs"].conns[0]
+        err = L.monitor_frames(evs)
+        if err:
+            chk.violation("bad-frame", "%s :: request stream %s" % (err, c["desc"][:200]), dict(case=c["line"], desc=c["desc"], impl=c["iobs"].raw[:2000]))
+            continue
+        ws = L.writes_of(evs)
+        quit_seen = b"QUIT" in b"".join(c["vals"]).upper() or "=q" in c["line"] or " def=q" in c["line"]
+        if not quit_seen and len(ws) != len(c["vals"]):
+            chk.violation("frame-count", "%d client values were answered with %d frames :: %s" % (len(c["vals"]), len(ws), c["desc"][:200]),
+                          dict(case=c["line"], desc=c["desc"], impl=c["iobs"].raw[:2000]))
+            continue
+        for w in ws:
+            kinds[chr(w[1][0])] = kinds.get(chr(w[1][0]), 0) + 1
+        if not corr(chk, c):
+            continue
+        validated += 1
+        distinct.add(c["desc"])
+    if broken and not chk.violations:
+        chk.violation("proof-broken", broken, dict(broken=broken, theorem="GRP.C04"), True)
+    chk.coverage.update(
+        evaluations=len(cases), distinct_nontrivial=len(distinct),
+        rule="every handler-result shape (%d: each message type, nil, error text, message+error, CRLF-carrying payloads, QUIT sentinel) x 15 pass-through / "
+             "post-processing commands; every forged-frame string %r in command name, key, value, option, error path; random streams of 1..5 client values "
+             "of every RESP type (non-array, null, empty, nested, line-typed command names); non-trivial = distinct stream" % (len(HRES_POOL), [i.decode() for i in INJ[:3]]),
+        traces_validated_against_impl=validated, input_distribution=dict(reply_frame_types=kinds),
+        samples=[c["desc"][:160] for c in cases[::max(1, len(cases) // 5)]][:6])
+    chk.assumptions = ["handler results are messages built from the five RESP types (trees), nil, or errors; a handler-built integer reply with non-numeric payload is framed but not strict (reported separately)"]
+    chk.finish()
+
+# ------------------------------------------------------------------------------------------ C05
+def run_c05(tier, seed):
+    chk = Check("C05", tier, seed)
+    broken = prep(chk, "C05")
+    rng = random.Random(seed)
+    cases = []
+    per = 45 if tier == "quick" else 600
+    for name in G.DIRECT:
+        for _ in range(per):
+            nm, args, exp = G.gen_direct(rng, name)
+            db = rng.choice([0, 0, 1, 7])
+            h = rng.choice(HRES_POOL[:-1])
+            cases.append(dict(kind="direct", name=nm, args=args, exp=exp, db=db, hres=h, sent=G.casing(rng, nm)))
+    for _ in range(60 if tier == "quick" else 600):
+        cases.append(dict(kind="unknown", name=rng.choice(["NOSUCH", "GETX", "SE", "", "get k", "FLUSHALL", "ZADDX"]), args=[G.g_str(rng) for _ in range(rng.randint(0, 3))], exp=None, db=0, hres="ms(4f4b)"))
+    for reg, sent in [("mycmd", "mycmd"), ("mycmd", "MYCMD"), ("MyCmd", "mYcMD"), ("MYCMD", "mycmd"), ("x1", "X1")]:
+        cases.append(dict(kind="app", name=sent, args=[b"a", b"b"], exp=None, db=0, hres="ms(4f4b)", reg=reg))
+    for c in cases:
+        sent = c.get("sent", c["name"])
+        steps = []
+        if c["db"]:
+            steps.append((0, "f" + L.hx(G.request_bytes("SELECT", [str(c["db"]).encode()]))))
+        steps += [(0, "f" + L.hx(G.request_bytes(sent, c["args"]))), (0, "e")]
+        c["line"] = L.mkcase(steps, default=c["hres"], app=[c["reg"].encode()] if c.get("reg") else ())
+        c["desc"] = req_desc(sent, c["args"])[:300]
+    good = run_cases(chk, cases)
+    validated, distinct, per_cmd = 0, set(), {}
+    for c in good:
+        if not basic_monitors(chk, "C05", c):
+            continue
+        res, evs = c["iobs"].conns[0]
+        calls = L.calls_of(evs)
+        ws = L.writes_of(evs)
+        reply = ws[-1][1] if ws else None
+        if c["kind"] == "unknown":
+            if calls or any(e.startswith("APP:") for e in evs) or reply is None or not reply.startswith(b"-"):
+                chk.violation("unknown-command", "unknown command %r: calls=%s reply=%r" % (c["name"], [x[4] for x in calls], reply), dict(case=c["line"], desc=c["desc"]))
+                continue
+        elif c["kind"] == "app":
+            apps = [e for e in evs if e.startswith("APP:")]
+            if len(apps) != 1 or reply != b"+APP\r\n":
+                chk.violation("app-executor", "executor registered as %r is not dispatched for %r (reply %r)" % (c["reg"], c["name"], reply), dict(case=c["line"], desc=c["desc"]))
+                continue
+        else:
+            exp = c["exp"]
+            if isinstance(exp, tuple):      # Scan: the pattern reaches the handler as a compiled expression
+                _, cur, pat, cnt, ty = exp
+                exp = "Scan(%d,match=%s,count=%d,type=%d)" % (cur, L.hx(glob_src(pat)), cnt, ty)
+            got = [x for x in calls]
+            ok = len(got) == 1
+            if ok:
+                db, auth, tok, reg, text = got[0]
+                a, b = L.align_pair(["C:0:1:" + text], ["C:0:1:" + exp])
+                ok = a == b and db == c["db"]
+            if not ok:
+                chk.violation("call-differs:" + c["name"], "%s (db %d) reached the handler as %s, expected exactly one call %s on db %d" %
+                              (c["desc"], c["db"], [(x[0], x[4]) for x in got], exp, c["db"]), dict(case=c["line"], desc=c["desc"], expected=exp, got=[x[4] for x in got]))
+                continue
+            if reply != expected_reply(c["hres"]):
+                chk.violation("reply-differs:" + c["name"], "%s: handler returned %s, client received %r (expected %r)" % (c["desc"], c["hres"][:60], reply, expected_reply(c["hres"])),
+                              dict(case=c["line"], desc=c["desc"]))
+                continue
+        if not corr(chk, c):
+            continue
+        validated += 1
+        per_cmd[c["name"].upper()] = per_cmd.get(c["name"].upper(), 0) + 1
+        distinct.add(c["desc"])
+    if broken and not chk.violations:
+        chk.violation("proof-broken", broken, dict(broken=broken, theorem="GRP.C05"), True)
+    chk.coverage.update(
+        evaluations=len(cases), distinct_nontrivial=len(distinct),
+        rule="for each of the %d commands that map onto one handler operation: %d well-formed argument vectors from the independent grammar (option subsets and "
+             "orders, boundary integers incl. int64 limits, exactly representable floats and infinities, exclusive-range markers, binary strings, 1..4 list elements, "
+             "three letter-case variants), after SELECT of db 0/1/7, with a random handler result; unknown commands; application executors registered in 5 casings; "
+             "expected call and expected reply come from the generator, not from the model; non-trivial = distinct request" % (len(G.DIRECT), per),
+        traces_validated_against_impl=validated, input_distribution=dict(per_command=per_cmd),
+        samples=[c["desc"][:160] for c in cases[::max(1, len(cases) // 6)]][:6])
+    chk.assumptions = ["command and option names are ASCII (strings.ToUpper is Unicode-aware: 'ſet' would upper-case to SET)",
+                       "float tokens are decimal literals exactly representable in binary64, or infinities (strconv.ParseFloat is not modelled beyond that class)"]
+    chk.finish()
+
+# ------------------------------------------------------------------------------------------ C10
+def run_c10(tier, seed):
+    chk = Check("C10", tier, seed)
+    broken = prep(chk, "C10")
+    rng = random.Random(seed)
+    cases, kinds = [], {}
+    for name in sorted(G.SIGS):
+        for kind, args in G.malformations(rng, name):
+            for sent in ([name] if tier == "quick" else [name, name.lower()]):
+                follow = rng.choice([("PING", [], b"+PONG\r\n"), ("ECHO", [b"z"], b"$1\r\nz\r\n")])
+                data = G.request_with_nulls(sent, args) + G.request_bytes(follow[0], follow[1]) + G.request_bytes("GET", [b"after"])
+                cases.append(dict(name=name, kind=kind, args=args, follow=follow, line=L.mkcase([(0, "f" + L.hx(data)), (0, "e")], default="mb(76)"),
+                                  desc="%s [%s]" % (req_desc(sent, args), kind)))
+                kinds[kind.split("@")[0]] = kinds.get(kind.split("@")[0], 0) + 1
+    # random corruption of valid requests (monitors: hang/panic/frames only)
+    nrand = 600 if tier == "quick" else 8000
+    for _ in range(nrand):
+        nm, args, _ = G.gen_direct(rng)
+        args = list(args)
+        if args:
+            i = rng.randrange(len(args))
+            args[i] = rng.choice([None, b"", b"abc", b"\x7f\x01", b"1.5", b"-", b"9x9"])
+        data = G.request_with_nulls(nm, args) + G.request_bytes("PING", [])
+        cases.append(dict(name=nm, kind="random", args=args, follow=None, line=L.mkcase([(0, "f" + L.hx(data)), (0, "e")], default="mb(76)"), desc="%s [random corruption]" % req_desc(nm, args)))
+    good = run_cases(chk, cases)
+    validated, distinct = 0, set()
+    for c in good:
+        if not basic_monitors(chk, "C10", c):
+            continue
+        res, evs = c["iobs"].conns[0]
+        err = L.monitor_frames(evs)
+        if err:
+            chk.violation("bad-frame", err + " :: " + c["desc"], dict(case=c["line"], desc=c["desc"]))
+            continue
+        if c["kind"] != "random":
+            ws = L.writes_of(evs)
+            # handler calls made before the first reply belong to the rejected request
+            first_w = next((i for i, e in enumerate(evs) if e.startswith("W@") or e.startswith("WX@")), len(evs))
+            early = [e for e in evs[:first_w] if e.startswith("C:")]
+            if early or not ws or not ws[0][1].startswith(b"-"):
+                chk.violation("accepted:%s:%s" % (c["name"], c["kind"].split("@")[0]), "ill-formed request %s was not rejected cleanly: handler calls %s, reply %r" %
+                              (c["desc"], [e.split(":", 5)[5] for e in early], ws[0][1] if ws else None), dict(case=c["line"], desc=c["desc"]))
+                continue
+            if len(ws) != 3 or ws[1][1] != c["follow"][2] or ws[2][1] != b"$1\r\nv\r\n":
+                chk.violation("after-reject", "requests after the rejected %s were not processed normally: replies %s" % (c["desc"], [w[1] for w in ws]), dict(case=c["line"], desc=c["desc"]))
+                continue
+            later = L.calls_of(evs)
+            if len(later) != 1 or later[0][0] != 0 or not later[0][1] or later[0][4] != "Get(%s)" % L.hx(b"after"):
+                chk.violation("state-after-reject", "connection state changed by the rejected %s: later calls %s" % (c["desc"], later), dict(case=c["line"], desc=c["desc"]))
+                continue
+        if not corr(chk, c):
+            continue
+        validated += 1
+        distinct.add(c["desc"])
+    if broken and not chk.violations:
+        chk.violation("proof-broken", broken, dict(broken=broken, theorem="GRP.C10"), True)
+    chk.coverage.update(
+        evaluations=len(cases), distinct_nontrivial=len(distinct),
+        rule="for each of the %d commands of the grammar: every required position omitted, every position as a null bulk, every numeric position replaced by each of "
+             "%d non-numeric/overflowing/fractional tokens (floats: %d tokens incl. nan), pair and score/member lists cut to odd length, every SET option clash / repeat / "
+             "non-positive / out-of-range expiry, LIMIT and COUNT operands, fractional ZRANGE indices — enumerated completely; followed by PING/ECHO and GET to show the "
+             "connection is unaffected; plus %d random corruptions (monitors only); non-trivial = distinct malformed request" % (len(G.SIGS), len(G.NON_NUMERIC), len(G.NON_FLOAT), nrand),
+        exhaustive=True, traces_validated_against_impl=validated, input_distribution=dict(by_malformation=kinds),
+        samples=[c["desc"][:160] for c in cases[::max(1, len(cases) // 6)]][:6])
+    chk.finish()
+
+# ------------------------------------------------------------------------------------------ C11
+def run_c11(tier, seed):
+    chk = Check("C11", tier, seed)
+    broken = prep(chk, "C11")
+    rng = random.Random(seed)
+    cases = []
+    npipes = 24 if tier == "quick" else 250
+    for pi in range(npipes):
+        reqs = []
+        for _ in range(rng.randint(1, 4)):
+            nm, args, exp = G.gen_direct(rng, rng.choice([n for n in G.DIRECT if n not in ("SCAN", "EXPIRE", "EXPIREAT")]))
+            args = [a[:24] for a in args]
+            reqs.append((nm, args))
+        if pi == 0:
+            reqs = [("RPUSH", [b"l", b"a", b"b"]), ("LPOP", [b"l", b"5"])]
+        parts = [G.request_bytes(nm, a) for nm, a in reqs]
+        data = b"".join(parts)
+        ends, off = [], 0
+        for p in parts:
+            off += len(p); ends.append(off)
+        for k in range(len(data) + 1):
+            mode = "e" if (k + pi) % 2 == 0 else "x"
+            j = sum(1 for e in ends if e <= k)
+            cases.append(dict(reqs=reqs, k=k, j=j, mode=mode, line=L.mkcase(([(0, "f" + L.hx(data[:k]))] if k else []) + [(0, mode)], default="mb(76)"),
+                              desc="pipeline %s cut at byte %d of %d (%s)" % (" ; ".join(req_desc(n, a) for n, a in reqs)[:200], k, len(data), "half-close" if mode == "e" else "full close")))
+    good = run_cases(chk, cases)
+    validated, distinct = 0, set()
+    # expected calls of complete requests: taken from the run of the uncut pipeline (k = len) of the same pipeline
+    full = {}
+    for c in good:
+        if c["j"] == len(c["reqs"]) and c["k"] == sum(len(G.request_bytes(n, a)) for n, a in c["reqs"]):
+            full[id(c["reqs"])] = [x[4] for x in L.calls_of(c["iobs"].conns[0][1])]
+    for c in good:
+        if not basic_monitors(chk, "C11", c):
+            continue
+        res, evs = c["iobs"].conns[0]
+        calls = [x[4] for x in L.calls_of(evs)]
+        ws = L.writes_of(evs)
+        allcalls = full.get(id(c["reqs"]))
+        if allcalls is not None and len(allcalls) == len(c["reqs"]):
+            want = allcalls[:c["j"]]
+            if calls != want:
+                chk.violation("partial-executed", "%s: handler calls %s, but only %d request(s) were received completely (expected %s)" % (c["desc"], calls, c["j"], want),
+                              dict(case=c["line"], desc=c["desc"], got=calls, expected=want))
+                continue
+        if len(ws) != c["j"]:
+            chk.violation("reply-count-after-cut", "%s: %d replies for %d complete requests" % (c["desc"], len(ws), c["j"]), dict(case=c["line"], desc=c["desc"]))
+            continue
+        err = L.monitor_release(res, evs, c["iobs"].final)
+        if err:
+            chk.violation("not-released", "%s: %s" % (c["desc"], err), dict(case=c["line"], desc=c["desc"]))
+            continue
+        if not corr(chk, c):
+            continue
+        validated += 1
+        if 0 < c["k"]:
+            distinct.add((id(c["reqs"]), c["k"]))
+    if broken and not chk.violations:
+        chk.violation("proof-broken", broken, dict(broken=broken, theorem="GRP.C11"), True)
+    chk.coverage.update(
+        evaluations=len(cases), distinct_nontrivial=len(distinct),
+        rule="%d pipelines of 1..4 valid client requests from the grammar; EVERY byte offset of each pipeline as the end of the stream (complete enumeration per pipeline), "
+             "alternating half-close (replies still writable) and full close (writes fail); non-trivial = distinct (pipeline, offset > 0)" % npipes,
+        exhaustive=True, traces_validated_against_impl=validated,
+        samples=[c["desc"][:200] for c in cases[::max(1, len(cases) // 5)]][:5])
+    chk.assumptions = ["requests are arrays of non-null bulk strings (what clients send); for line-typed elements the parser's end-of-stream leniency can complete a frame (observed by C06, outside this quantifier)"]
+    chk.finish()
+
+# ------------------------------------------------------------------------------------------ C20 (and the loop part of C19)
+def outcome_cases(rng, n, tier):
+    """pipelines mixing every request outcome, ended in every way"""
+    cases = []
+    for _ in range(n):
+        pw = b"secret" if rng.random() < 0.3 else None
+        reqs = []
+        for _ in range(rng.randint(1, 5)):
+            r = rng.random()
+            if r < 0.45: reqs.append(any_request(rng))
+            elif r < 0.6:
+                nm = rng.choice(sorted(G.SIGS)); mal = G.malformations(rng, nm); kind, args = rng.choice(mal)
+                reqs.append((nm, args))
+            elif r < 0.7: reqs.append((rng.choice(["NOSUCH", ""]), [b"x"]))
+            elif r < 0.8 and pw: reqs.append(("AUTH", [rng.choice([pw, b"wrong", b""])]))
+            elif r < 0.88: reqs.append((rng.choice(["STRLEN", "HLEN", "HKEYS", "SUBSTR", "HEXISTS", "HSTRLEN", "HVALS"]), [b"k", b"0", b"1"]))
+            else: reqs.append(("QUIT", []))
+        data = b"".join(G.request_with_nulls(nm if isinstance(nm, str) else nm.decode("latin1"), a) for nm, a in reqs)
+        endk = rng.choice(["boundary", "inside", "garbage", "reset", "wfail"])
+        steps = []
+        if endk == "boundary":
+            parts = [G.request_with_nulls(nm if isinstance(nm, str) else nm.decode("latin1"), a) for nm, a in reqs]
+            cut = rng.randint(0, len(parts))
+            steps = [(0, "f" + L.hx(b"".join(parts[:cut])))] if cut else []
+            steps.append((0, "e"))
+        elif endk == "inside":
+            k = rng.randrange(1, len(data)) if len(data) > 1 else 0
+            steps = [(0, "f" + L.hx(data[:k])), (0, "e")]
+        elif endk == "garbage":
+            steps = [(0, "f" + L.hx(data + rng.choice([b"!bogus\r\n", b"$abc\r\n", b"*1\r\n$3\r\nabXY\r\n", b"\x00\x01"]))), (0, "e")]
+        elif endk == "reset":
+            steps = [(0, "f" + L.hx(data)), (0, "r")]
+        else:
+            steps = [(0, "w"), (0, "f" + L.hx(data)), (0, "x")]
+        noerr = has_mapcmd([(n_, a) for n_, a in reqs if isinstance(n_, str)])
+        cases.append(dict(line=L.mkcase(steps, pw=pw, tbl=rand_table(rng, noerr=noerr), default=rng.choice(HRES_NOERR if noerr else HRES_POOL)), endk=endk,
+                          desc=("[pw] " if pw else "") + " ; ".join(req_desc(n_, a) for n_, a in reqs)[:260] + " [end: %s]" % endk))
+    return cases
+
+def run_c20(tier, seed):
+    chk = Check("C20", tier, seed)
+    broken = prep(chk, "C20")
+    rng = random.Random(seed)
+    cases = outcome_cases(rng, 2500 if tier == "quick" else 30000, tier)
+    good = run_cases(chk, cases)
+    validated, distinct, ends = 0, set(), {}
+    for c in good:
+        if not basic_monitors(chk, "C20", c):
+            continue
+        res, evs = c["iobs"].conns[0]
+        err = L.monitor_spans(evs)
+        if err:
+            chk.violation("spans-unbalanced", "%s :: %s" % (err, c["desc"]), dict(case=c["line"], desc=c["desc"], events=[e for e in evs if e[:2] in ("RS", "RF", "SS", "SF") or e.startswith("!")][:200]))
+            continue
+        if not corr(chk, c):
+            continue
+        validated += 1
+        ends[c["endk"]] = ends.get(c["endk"], 0) + 1
+        distinct.add(c["desc"])
+    if broken and not chk.violations:
+        chk.violation("proof-broken", broken, dict(broken=broken, theorem="GRP.C20"), True)
+    chk.coverage.update(
+        evaluations=len(cases), distinct_nontrivial=len(distinct),
+        rule="pipelines of 1..5 requests mixing every outcome (success with every handler-result shape, argument errors from the C10 catalogue, unknown command, "
+             "unauthorized on a password-protected server, AUTH right/wrong, commands composed from other commands, QUIT) x every ending (end of stream at a request "
+             "boundary, inside a request, protocol error, reset, write failure); a tracer double records start/finish and checks the span stack itself; non-trivial = distinct case",
+        traces_validated_against_impl=validated, input_distribution=dict(endings=ends),
+        samples=[c["desc"][:200] for c in cases[:5]])
+    chk.finish()
+
+def run_c19_loop(chk, rng, n):
+    """the connection-loop half of C19: every ending mode of one scripted connection releases it"""
+    cases = outcome_cases(rng, n, "quick")
+    good = run_cases(chk, cases)
+    validated, ends = 0, {}
+    for c in good:
+        if not basic_monitors(chk, "C19", c):
+            continue
+        res, evs = c["iobs"].conns[0]
+        err = L.monitor_release(res, evs, c["iobs"].final)
+        if err:
+            chk.violation("not-released", "%s :: %s" % (err, c["desc"]), dict(case=c["line"], desc=c["desc"]))
+            continue
+        if evs.count("CLOSE") < 1:
+            continue
+        if not corr(chk, c):
+            continue
+        validated += 1
+        ends[c["endk"]] = ends.get(c["endk"], 0) + 1
+    return len(cases), validated, ends, [c["desc"][:160] for c in cases[:3]]
